@@ -110,7 +110,19 @@ func solveQueryL(q string, logic string, quick time.Duration, full time.Duration
 		defer cancel()
 		ch := make(chan solverRes, len(names))
 		for i, n := range names {
-			go func(n string, d time.Duration) { ch <- runSolver(cctx, n, file, d) }(n, tmo[i])
+			go func(i int, n string, d time.Duration) {
+				if i > 0 && n == "z3" {
+					// the older z3 only joins when the others have not answered
+					// within two seconds (most obligations are decided by then)
+					select {
+					case <-cctx.Done():
+						ch <- solverRes{"unknown", n, "not started", 0}
+						return
+					case <-time.After(2 * time.Second):
+					}
+				}
+				ch <- runSolver(cctx, n, file, d)
+			}(i, n, tmo[i])
 		}
 		var outs []string
 		var last solverRes
